@@ -383,6 +383,19 @@ def compile_with(src, mode2D, prune):
             setattr(MeshVolumeRegion, name, fn)
 
 
+def circle_sliver_only(c, i, points):
+    """True iff the object's base region is a circle and every given base point lies in the
+    sliver between the circle and its inscribed 128-gon (CircularRegion's polygon)."""
+    if c.get("family") == "rh" or i < 1 or not points:
+        return False
+    reg = c["objs"][i - 1]["region"]
+    if reg["kind"] != "circle":
+        return False
+    r = reg["r"]
+    inner = r * math.cos(math.pi / 128) - 1e-9
+    return all(inner <= math.hypot(p[0] - reg["cx"], p[1] - reg["cy"]) <= r + 1e-9 for p in points)
+
+
 def cell_of(c, i):
     if c.get("family") == "rh":
         which = "ego" if i == 0 else "other"
@@ -572,6 +585,7 @@ def judge(c, nscenes=120, tries=400):
         out.cls("pruned:" + type(ppirs[0].region).__name__)
         # (1) no feasible scene lost
         lost, example, how = 0, None, None
+        lost_points = []
         for scene in accepted:
             bp = scene.sample[upirs[0]]
             try:
@@ -582,10 +596,16 @@ def judge(c, nscenes=120, tries=400):
             if not ok:
                 lost += 1
                 example = example or [float(x) for x in bp]
+                lost_points.append([float(x) for x in bp])
         if how:
             out.cls(how)
         if lost:
-            out.fail("lost-scene|" + cell_of(c, i), source=src, lost=lost, of=len(accepted),
+            sig = "lost-scene|" + cell_of(c, i)
+            if circle_sliver_only(c, i, lost_points):
+                # known finding: the sampler of a CircularRegion draws from the true disc, pruning
+                # works on its inscribed 128-gon, so the sliver between the two is pruned away
+                sig = "lost-scene-sliver|circle-base-approximated-by-inscribed-polygon"
+            out.fail(sig, source=src, lost=lost, of=len(accepted),
                      base_point=example, pruned_region=repr(ppirs[0].region)[:200])
         # (2) no new scenes: base points drawn by the pruned program lie in the original region
         pscenes, _ = draw_scenes(pruned, c["seed"] + 1, 80, 40)
